@@ -20,6 +20,8 @@ type RxOpt struct {
 	// NoCasePairs: no letter occurs in both cases anywhere (open known finding D20: a class that is
 	// exactly a case-fold orbit, e.g. `[aA]`, is printed by the engine as `(?i:A)` and loses the flag)
 	NoCasePairs bool
+	// InlineFlags: entries may contain inline flag groups (outside C01's domain; C02 and C19 use them)
+	InlineFlags bool
 	// Words: percentage of entries that are plain words built from a small vocabulary of stems and
 	// tails, so that entries share literal prefixes and suffixes (drives the factoring passes)
 	Words int
@@ -187,6 +189,9 @@ func quantifiable(a string) bool {
 }
 
 func rxAtom(t *rapid.T, o RxOpt, depth int) string {
+	if o.InlineFlags && rapid.IntRange(0, 14).Draw(t, "inlineflag?") == 0 {
+		return rapid.SampledFrom([]string{`(?i:union)`, `(?i:ab)c`, `(?i)x`, `(?s:.)`, `(?-s:.)q`, `(?i:a|b)`, `(?m:^)z`, `(?U)a+`, `(?is:a.b)`}).Draw(t, "inlineflag")
+	}
 	if o.Stress > 0 && rapid.IntRange(1, 100).Draw(t, "stress?") <= o.Stress {
 		for {
 			a := rapid.SampledFrom(stressAtoms).Draw(t, "stress")
